@@ -1001,6 +1001,70 @@ def rule_r7(chk, prog):
     chk.floor('C08.R7', 'reads of the input file', nread, 2)
 
 
+def rule_r8(chk, prog):
+    chk.rule('C08.R8', 'regular expressions the reader uses for string '
+             'literals and quoted symbols describe exactly the standard\'s '
+             'lexemes (no backslash escapes, line breaks allowed, "" inside '
+             'a string)')
+    from ..regexlex import regex_delimited
+    import re._parser as rp
+    import re._constants as rc
+    m = prog.mod('nodeio')
+    n = 0
+    for c in ast.walk(m.tree):
+        if not (isinstance(c, ast.Call) and (call_name(c) or '') in (
+                're.compile', 're.match', 're.search', 're.fullmatch',
+                're.finditer', 're.findall') and c.args and isinstance(
+                    c.args[0], ast.Constant) and isinstance(
+                        c.args[0].value, str)):
+            continue
+        pat = c.args[0].value
+        fl = c.args[-1] if len(c.args) > 1 and 'compile' in (
+            call_name(c) or '') else kw(c, 'flags')
+        dotall = fl is not None and ('DOTALL' in unparse(fl)
+                                     or unparse(fl).endswith('.S'))
+        # top-level alternatives, by their source text
+        alts, depth, cur, esc, incls = [], 0, '', False, False
+        for ch in pat:
+            if esc:
+                cur += ch
+                esc = False
+                continue
+            if ch == '\\':
+                cur += ch
+                esc = True
+                continue
+            if ch == '[':
+                incls = True
+            elif ch == ']':
+                incls = False
+            elif not incls and ch == '(':
+                depth += 1
+            elif not incls and ch == ')':
+                depth -= 1
+            if ch == '|' and depth == 0 and not incls:
+                alts.append(cur)
+                cur = ''
+            else:
+                cur += ch
+        alts.append(cur)
+        for a in alts:
+            body = a.lstrip('^')
+            q = '"' if body.startswith('"') else (
+                '|' if body.startswith('\\|') else None)
+            if q is None:
+                continue
+            n += 1
+            ok, why = regex_delimited(a, dotall, q, True, q == '"')
+            chk.check('C08.R8', 'nodeio', f'pattern {a!r}', ok,
+                      f'the reader scans {"string literals" if q == chr(34) else "quoted symbols"} '
+                      f'with the pattern {a!r}: {why}', loc=m.loc(c),
+                      nontrivial=True)
+    chk.instance('C08.R8', 'nodeio', f'{n} literal pattern(s) judged', True,
+                 'the character loops are judged by R1-R4',
+                 nontrivial=False)
+
+
 def run(tier):
     prog = Program()
     chk = Check(
@@ -1026,6 +1090,7 @@ def run(tier):
         ])
     chk.guard(rule_r5, chk, prog)
     chk.guard(rule_r7, chk, prog)
+    chk.guard(rule_r8, chk, prog)
     tab = chk.guard(extract_table, chk, prog)
     if tab is not None:
         m, f, cfg, ex, top, states, table = tab
